@@ -74,6 +74,9 @@ inductive Ev where
   | spawn (recipe : Nat) (args : Args) (cmd : String)
   | script (recipe : Nat) (args : Args) (text : String)
   | prompt (recipe : Nat)
+  /-- ghost label: the body of `recipe` starts, called with `args`; `sub` = inside a subsequent
+  (`===> Running recipe` under `--verbose`) -/
+  | body (recipe : Nat) (args : Args) (sub : Bool)
   deriving DecidableEq, Repr, Inhabited
 
 inductive Err where
@@ -217,11 +220,12 @@ def runBody (cfg : Cfg) (env : Env) (ri : Nat) (r : Recipe) (given ps : Args) : 
   if r.script then runScript cfg env ri r given ps else runLines cfg env ri r given ps r.body
 
 mutual
-/-- `Justfile::run_recipe`; `k` is the number of confirmation prompts answered so far. -/
+/-- `Justfile::run_recipe`; `k` is the number of confirmation prompts answered so far, `sub`
+(ghost) tells whether we are below a subsequent dependency. -/
 def runRecipe (P : Prog) (cfg : Cfg) (env : Env) :
-    Nat → Nat → Args → Ran → Nat → Res Ran
-  | 0, _, _, _, _ => ([], .error .fuel)
-  | fuel + 1, ri, given, ran, k =>
+    Nat → Bool → Nat → Args → Ran → Nat → Res Ran
+  | 0, _, _, _, _, _ => ([], .error .fuel)
+  | fuel + 1, sub, ri, given, ran, k =>
     if (ri, given) ∈ ran then ([], .ok ran) else
     match P.recipes[ri]? with
     | none => ([], .error .internal)
@@ -232,32 +236,32 @@ def runRecipe (P : Prog) (cfg : Cfg) (env : Env) :
       match bindParams cfg env r.params given [] with
       | (e1, .error e) => (e0 ++ e1, .error e)
       | (e1, .ok ps) =>
-        match (if cfg.noDeps then ([], .ok ran)
-               else runDeps P cfg env fuel r.priors ps ran (k + countPrompts e0)) with
+        match runDeps P cfg env fuel sub r.priors ps ran (k + countPrompts e0) with
         | (e2, .error e) => (e0 ++ e1 ++ e2, .error e)
         | (e2, .ok ran1) =>
           match runBody cfg env ri r given ps with
-          | (e3, .error e) => (e0 ++ e1 ++ e2 ++ e3, .error e)
+          | (e3, .error e) => (e0 ++ e1 ++ e2 ++ [.body ri given sub] ++ e3, .error e)
           | (e3, .ok ()) =>
-            match (if cfg.noDeps then ([], .ok [])
-                   else runDeps P cfg env fuel r.subs ps [] (k + countPrompts e0 + countPrompts e2)) with
-            | (e4, .error e) => (e0 ++ e1 ++ e2 ++ e3 ++ e4, .error e)
-            | (e4, .ok _) => (e0 ++ e1 ++ e2 ++ e3 ++ e4, .ok ((ri, given) :: ran1))
+            match runDeps P cfg env fuel true r.subs ps [] (k + countPrompts e0 + countPrompts e2) with
+            | (e4, .error e) => (e0 ++ e1 ++ e2 ++ [.body ri given sub] ++ e3 ++ e4, .error e)
+            | (e4, .ok _) => (e0 ++ e1 ++ e2 ++ [.body ri given sub] ++ e3 ++ e4, .ok ((ri, given) :: ran1))
 termination_by fuel => (fuel, 0)
 
 def runDeps (P : Prog) (cfg : Cfg) (env : Env) :
-    Nat → List Dep → Args → Ran → Nat → Res Ran
-  | _, [], _, ran, _ => ([], .ok ran)
-  | fuel, d :: ds, ps, ran, k =>
+    Nat → Bool → List Dep → Args → Ran → Nat → Res Ran
+  | _, _, [], _, ran, _ => ([], .ok ran)
+  | fuel, sub, d :: ds, ps, ran, k =>
+    -- `--no-deps`: dependencies are skipped altogether
+    if cfg.noDeps then ([], .ok ran) else
     match evalList cfg env ps d.args with
     | (e1, .error e) => (e1, .error e)
     | (e1, .ok given) =>
-      match runRecipe P cfg env fuel d.target given ran k with
+      match runRecipe P cfg env fuel sub d.target given ran k with
       | (e2, .error e) => (e1 ++ e2, .error e)
       | (e2, .ok ran1) =>
-        match runDeps P cfg env fuel ds ps ran1 (k + countPrompts e2) with
+        match runDeps P cfg env fuel sub ds ps ran1 (k + countPrompts e2) with
         | (e3, res) => (e1 ++ e2 ++ e3, res)
-termination_by fuel ds => (fuel, ds.length + 1)
+termination_by fuel _ ds => (fuel, ds.length + 1)
 end
 
 /-- Module-level assignment backticks, evaluated before anything runs. -/
@@ -274,7 +278,7 @@ def runInvs (P : Prog) (cfg : Cfg) (env : Env) (fuel : Nat) :
     List Key → Ran → Nat → Res Ran
   | [], ran, _ => ([], .ok ran)
   | (ri, given) :: rest, ran, k =>
-    match runRecipe P cfg env fuel ri given ran k with
+    match runRecipe P cfg env fuel false ri given ran k with
     | (e1, .error e) => (e1, .error e)
     | (e1, .ok ran1) =>
       match runInvs P cfg env fuel rest ran1 (k + countPrompts e1) with
